@@ -269,6 +269,9 @@ class LessParser(object):
                     except CompilationError as e:
                         # errors of the imported file are errors of this one
                         self.register.register(str(e))
+                    except SyntaxError as e:
+                        # raised by the lexer (a character that is no token)
+                        self.handle_error(e, p.lineno(1))
                     p[0] = recurse.result
                 else:
                     err = "Cannot import '%s', file not found" % filename
